@@ -23,8 +23,8 @@ LEVEL = "model_checking"
 SHARDS = 4
 RULE = (
     "all ordered forests with <= N nodes (node = scope construct or probe message) x full product of "
-    "labels: construct in 7 kinds, re-entry target k in {0,1,2}, exit in {fall through, raise caught "
-    "here, raise propagating to the top}; states = distinct reference context stacks reached (as "
+    "labels: construct in 8 kinds, re-entry target k in {0,1,2}, exit in {fall through, Exception / "
+    "BaseException caught here, Exception / BaseException propagating to the top}; states = distinct reference context stacks reached (as "
     "tuples of construct kinds), transitions = scope entries + exits executed; non-trivial = tree with "
     "nesting depth >= 2 or a raise"
 )
@@ -33,13 +33,15 @@ ASSUMPTIONS = [
     "trees up to the node bound",
 ]
 
-KINDS = ["with", "context", "run", "re-context", "re-run", "start_task", "generator-close"]
-SCHEMA = {"m": [], "a": [("c", 7), ("k", 3), ("exit", 3)]}
+KINDS = ["with", "context", "run", "re-context", "re-run", "start_task", "generator-close", "generator-context-close"]
+# exit: 0 fall through, 1 Exception caught right outside, 2 Exception propagating to the top,
+#       3 BaseException caught right outside, 4 BaseException propagating to the top
+SCHEMA = {"m": [], "a": [("c", 8), ("k", 3), ("exit", 5)]}
 
 
 def BOUNDS(tier):
     if tier == "quick":
-        return {"full_product_nodes": 3, "deviation_bounded": [[4, 2]]}
+        return {"full_product_nodes": 2, "deviation_bounded": [[3, 4], [4, 2]]}
     return {"full_product_nodes": 3, "deviation_bounded": [[4, 4], [5, 3], [6, 2]]}
 
 
@@ -92,6 +94,10 @@ def cases(unit, tier):
 
 class Boom(Exception):
     pass
+
+
+class BaseBoom(BaseException):
+    """Not an Exception: like KeyboardInterrupt / CancelledError / GeneratorExit."""
 
 
 def run_case(prog):
@@ -164,9 +170,10 @@ def run_case(prog):
                 node(s)
 
         def maybe_raise(s):
-            if s[1].get("exit", 0):
-                e = Boom()
-                e.up = s[1]["exit"]
+            ex = s[1].get("exit", 0)
+            if ex:
+                e = Boom() if ex in (1, 2) else BaseBoom()
+                e.up = 1 if ex in (1, 3) else 2
                 raise e
 
         def node(s):
@@ -179,7 +186,7 @@ def run_case(prog):
             before = current_action()
             try:
                 scope(s, c)
-            except Boom as e:
+            except (Boom, BaseBoom) as e:
                 if e.up == 2:
                     counts["transitions"] += 1
                     cur = current_action()
@@ -246,13 +253,13 @@ def run_case(prog):
             elif c == 4:
                 a = stack[-1 - s[1].get("k", 0)][0]
                 a.run(lambda: inside(s, a, kind))
-            elif c == 6:
+            elif c in (6, 7):
                 holder = {}
 
                 def gen():
                     a = new_action()
                     holder["a"] = a
-                    with a:
+                    with (a if c == 6 else a.context()):
                         stack.append((a, kind))
                         note()
                         counts["transitions"] += 1
@@ -272,11 +279,13 @@ def run_case(prog):
                 finally:
                     if holder.get("pushed"):
                         stack.pop()
+                    if c == 7:
+                        holder["a"].finish()
 
         for top in prog:
             try:
                 node(top)
-            except Boom:
+            except (Boom, BaseBoom):
                 pass
             if current_action() is not None:
                 viol.append(("not-restored-at-top-level", {"got": _n(current_action())}))
